@@ -1,6 +1,7 @@
 package main
 
 import (
+	"os"
 	"fmt"
 	"go/token"
 	"go/types"
@@ -160,6 +161,8 @@ func (fv *FuncVerifier) takeEdge(st *State, from, to *ssa.BasicBlock) bool {
 	}
 	return true
 }
+
+var edgeCover = os.Getenv("GOVC_EDGE_COVER") != ""
 
 func (fv *FuncVerifier) havocLoop(st *State, li *loopInfo) {
 	if li.havocAll {
@@ -379,6 +382,15 @@ func (fv *FuncVerifier) step(st *State, b *ssa.BasicBlock, ins ssa.Instruction) 
 		fv.paths++
 		if fv.paths > fv.maxPaths {
 			panic(unsupported(fmt.Sprintf("path explosion (> %d paths)", fv.maxPaths)))
+		}
+		if edgeCover && fv.mergeMode && inlineDepth == 0 {
+			// development aid (GOVC_EDGE_COVER=1): is each side of this branch reachable? An
+			// unreachable side is either defensive code or a contradiction in the assumptions
+			for k, g := range []Term{c, Not(c)} {
+				ob := fv.addOb(st, "edge", fmt.Sprintf("edge:b%d:%s", b.Index, []string{"then", "else"}[k]), g, "branch reachable", x.Pos())
+				ob.Cover = true
+				ob.Info = true
+			}
 		}
 		// fork: else branch in a clone
 		st2 := st.clone()
@@ -1106,8 +1118,7 @@ func (fv *FuncVerifier) typeAssert(st *State, x *ssa.TypeAssert) Value {
 	var ok Term
 	var res Value
 	if _, isIface := x.AssertedType.Underlying().(*types.Interface); isIface {
-		fn := "impl_" + typeKey(x.AssertedType)
-		fv.enc.declareFun(fn, []string{"Int"}, "Bool")
+		fn := fv.enc.implPred(x.AssertedType)
 		ok = And(Not(Eq(typ, I(0))), app(SBool, fn, typ))
 		res = Value{Typ: x.AssertedType, L: []Term{typ, val}}
 	} else {
@@ -1154,6 +1165,11 @@ func (fv *FuncVerifier) lookup(st *State, x *ssa.Lookup) Value {
 		okT := res.L[len(res.L)-1]
 		if okT.Sort == SBool {
 			st.assume(Implies(Eq(m.L[0], I(0)), Not(okT)))
+			// ok <=> the key is present in the map's current content
+			if key, kok := fv.enc.mapKey(st.get(x.Index)); kok {
+				ver := Select(st.heapArr("M_content", SArr), m.L[0])
+				st.assume(Eq(okT, st.mhas(ver, key)))
+			}
 		}
 	}
 	return res
@@ -1165,7 +1181,11 @@ func (fv *FuncVerifier) mapUpdate(st *State, x *ssa.MapUpdate) {
 	if fv.fc.NoPanic {
 		fv.addOb(st, "nil", fmt.Sprintf("nilmap[%s]", fv.valName(x.Map)), Not(Eq(m.L[0], I(0))), "assignment to entry in nil map", x.Pos())
 	}
-	fv.markMapDirty(st, x.Map)
+	if key, kok := fv.enc.mapKey(st.get(x.Key)); kok {
+		fv.mapSetKey(st, x.Map, key, true)
+	} else {
+		fv.markMapDirty(st, x.Map)
+	}
 }
 
 func (fv *FuncVerifier) nextOp(st *State, x *ssa.Next) Value {
@@ -1260,6 +1280,7 @@ func (fv *FuncVerifier) doReturn(st *State, r *ssa.Return) {
 		g := fv.evalBool(env, c.E)
 		pob := fv.addOb(st, "post", fmt.Sprintf("post#%d@ret%d", i, idx), g, c.Src, r.Pos())
 		pob.PC = append(pob.PC, revealAxioms(fv.enc, c.Reveal)...)
+		pob.ClauseProps = c.Props
 		if fv.fc.Staged {
 			// proved just above at this very site: later postconditions may build on it
 			st.pc = append(st.pc[:len(st.pc):len(st.pc)], g)
